@@ -228,12 +228,12 @@ func refBundleID(pub []byte) string {
 // ---- input files -----------------------------------------------------------------------------
 
 type FileSpec struct {
-	Kind    string `json:"kind"`             // filler | testfile | bundle
-	L       int    `json:"len,omitempty"`    // filler: bytes before the 8-byte length field; bundle: body length
-	Tag     uint64 `json:"tag,omitempty"`    // filler seed
-	NEx     int    `json:"n_ex,omitempty"`   // bundle: number of exchanges
-	Trailer string `json:"trailer"`          // correct | too-small | too-large | prefixed-block
-	Arg     uint64 `json:"arg,omitempty"`    // too-small: value = total-1-(arg mod total); too-large: arg < 2^20 ? total+1+arg : arg
+	Kind    string `json:"kind"`           // filler | testfile | bundle
+	L       int    `json:"len,omitempty"`  // filler: bytes before the 8-byte length field; bundle: body length
+	Tag     uint64 `json:"tag,omitempty"`  // filler seed
+	NEx     int    `json:"n_ex,omitempty"` // bundle: number of exchanges
+	Trailer string `json:"trailer"`        // correct | too-small | too-large | prefixed-block
+	Arg     uint64 `json:"arg,omitempty"`  // too-small: value = total-1-(arg mod total); too-large: arg < 2^20 ? total+1+arg : arg
 }
 
 func repoDir() string {
